@@ -475,7 +475,7 @@ var Cover = &analysis.Analyzer{
 				}
 			}
 		}
-		b, _ := json.Marshal(map[string]any{"ast": astKinds, "ir": irKinds})
+		b, _ := json.Marshal(map[string]any{"ast": astKinds, "ir": irKinds, "pkg": pass.Pkg.Path()})
 		pass.Report(analysis.Diagnostic{Pos: pass.Files[0].Name.Pos(), Message: "cover " + string(b)})
 		return nil, nil
 	},
